@@ -263,12 +263,20 @@ func runBM25History(r *rand.Rand, nops int, allowReadd bool, t *Trace) *Case {
 				s = s.WithCutoff(cutoff)
 			}
 			if nq > 0 {
+				if r.Intn(10) == 0 {
+					s = s.WithQuery("decoy alpha") // options SET their value
+					t.Stat("bm25.option_set_twice")
+				}
 				s = s.WithQuery(qs...)
 			}
 			if len(nodes) > 0 {
 				s = s.WithNode(nodes...)
 			}
 			if len(docids) > 0 {
+				if r.Intn(6) == 0 {
+					s = s.WithDocumentIDs(1, 2)
+					t.Stat("bm25.option_set_twice")
+				}
 				s = s.WithDocumentIDs(docids...)
 			}
 			var res []comet.TextResult
